@@ -413,8 +413,10 @@ def merge_problems(info, keys_before):
             continue
         if c == 0 and twin is not None and same_entity(twin, s):
             continue
-        out.append(("symbol-dropped" if c == 0 else "symbol-duplicated",
-                    "non-skipped symbol %r of the other table occurs %d times after merge" % (s.name, c)))
+        code = "symbol-dropped" if c == 0 else "symbol-duplicated"
+        if c == 0 and twin is not None and s.is_import and not twin.is_import:
+            code = "symbol-dropped:import-vs-local"
+        out.append((code, "non-skipped symbol %r of the other table occurs %d times after merge" % (s.name, c)))
     for s in after:
         if not any(s is x for x in info["self_before"] + info["other_before"]):
             out.append(("symbol-invented", "symbol %r appeared from nowhere" % s.name))
@@ -426,7 +428,12 @@ def merge_problems(info, keys_before):
         rival = (other_by_name if in_self else before_by_name).get(old.lower())
         if rival is None or (in_self and any(rival is k for k in skip)) or \
                 (not in_self and any(s is k for k in skip)):
-            why = "skipped-import" if (rival is not None and rival.is_import) else "no-clash"
+            from psyclone.psyir.symbols import ContainerSymbol
+            why = "no-clash"
+            if rival is not None and rival.is_import:
+                why = "skipped-import"
+            elif rival is not None and isinstance(rival, ContainerSymbol):
+                why = "skipped-container"
             out.append(("rename-without-clash:" + why,
                         "symbol %r was renamed to %r although no non-skipped symbol of the other table "
                         "has that name" % (old, s.name)))
@@ -471,6 +478,8 @@ def run_history(ctx, nslots, ops, record=True):
             what = changed_what(before, raw_after)
             if op[0] == "merge" and impl.last_merge is not None:
                 key = "merge/%s/%s-changed-before-raise" % (impl.last_merge["pass"], what)
+                if impl.last_merge["pass"] == "check_for_clashes":
+                    key += ":" + res[2].split(":")[0]
             else:
                 key = "%s/%s-changed-before-raise" % (site, what)
             problems.append((idx, key, "rejected operation (%s) changed the state" % res[2]))
@@ -724,8 +733,16 @@ class Gen:
                 other = self.pick_tref(impl, prefer_det=True)
             return ("next_name", tref, self.name() if rng.random() < 0.9 else "", rng.random() < 0.3, other)
         if kind == "lookup":
+            inscope = [s.name for t in impl.chain(tref) for s in t.symbols] if impl.table(tref) is not None else []
+            if inscope and rng.random() < 0.7:
+                nm = rng.choice(inscope)
+                return ("lookup", tref, rng.choice([nm, nm.swapcase(), nm.upper()]))
             return ("lookup", tref, self.name())
         if kind == "lookup_tag":
+            # pylint: disable=protected-access
+            intags = [tg for t in impl.chain(tref) for tg in t._tags] if impl.table(tref) is not None else []
+            if intags and rng.random() < 0.6:
+                return ("lookup_tag", tref, rng.choice(intags))
             return ("lookup_tag", tref, rng.choice(TAGS))
         if kind == "rename":
             return ("rename", tref, self.pick_sid(impl, tref), self.name())
@@ -754,13 +771,27 @@ class Gen:
         ops = []
         for _ in range(self.length):
             op = self.next_op(impl)
-            if op[0] in ("add", "swap", "new_symbol", "find_or_create", "find_or_create_tag"):
-                spec = op[3] if op[0] in ("add", "find_or_create") else (op[4] if op[0] == "swap" else op[5])
-                if spec[2][0] == "IImport" and not (0 <= spec[2][1] < len(impl.objs)):
-                    continue
+            if any(not 0 <= i < len(impl.objs) for i in op_sids(op)):
+                continue            # the model's symbol ids are indices of existing objects
             impl.apply(op)
             ops.append(op)
         return ops
+
+
+def op_sids(op):
+    """symbol ids an operation refers to"""
+    n = op[0]
+    out = []
+    spec = {"add": 3, "find_or_create": 3, "swap": 4, "new_symbol": 5, "find_or_create_tag": 5}.get(n)
+    if spec is not None and op[spec][2][0] == "IImport":
+        out.append(op[spec][2][1])
+    if n in ("rename", "remove", "swap"):
+        out.append(op[2])
+    if n == "specify_args":
+        out += list(op[2])
+    if n == "merge":
+        out += list(op[3])
+    return out
 
 
 def targeted_histories():
